@@ -85,9 +85,11 @@ def side_case(seed):
     noise = rng.choice([0.0, 0.0, 1e-3])
     if noise:
         X = X + noise * np.array([[rng.uniform(-1, 1) for _ in range(m)] for _ in range(n)])
+    sc = rng.choice([1.0, 1.0, 1e-3, 1e3])       # a common scale of the snapshots changes neither eigenvalues nor the relative cut
+    X, Y = sc * X, sc * Y
     thr = rng.choice([0.0, 1e-10, 1e-2])
     ol, or_ = rng.random() < 0.7, rng.random() < 0.7
-    desc = dict(which=which, dims=dims, k=k, thr=thr, ortho_l=ol, ortho_r=or_, noise=noise)
+    desc = dict(which=which, dims=dims, k=k, thr=thr, ortho_l=ol, ortho_r=or_, noise=noise, scale=sc)
     try:
         x = TT(X.reshape(dims + [1] * order))
         y = TT(Y.reshape(dims + [1] * order))
